@@ -72,6 +72,11 @@ impl Report {
         if o.switches >= 2 || !o.faults_fired.is_empty() {
             self.nontrivial = true;
         }
+        *self.probes.entry("instrumented-edges-executed".into()).or_insert(0) += o.edges;
+        *self.probes.entry("distinct-edges-per-run-sum".into()).or_insert(0) += o.distinct_edges;
+        if o.preemptions > 0 {
+            *self.probes.entry("preemptions-at-basic-block-edges".into()).or_insert(0) += o.preemptions;
+        }
         if !o.trace.is_empty() {
             self.trace.extend(o.trace.iter().cloned());
         }
